@@ -42,12 +42,18 @@ EXPLANATION = (
     'spellings / small membership tests normalised); calls are bound by signature; findings need a closed world, else Undecided. '
     'R8 also: a strip of an item attribute from the installed name (man page locale) performed under tests of that attribute is not skipped on a path that never tests it. '
     'R8 also: no field of an install record built in a loop depends on a local that the loop body redefines from per-item data and reads before defining it (a value carried over from the previous file, e.g. a guessed tag). '
+    'R4b also: the log writer records the entry itself - any str transform (strip chain / slice) applied to the entry before it is written may remove nothing but the terminator the writer then appends. '
+    'Normal form N15: a local helper function (closure) used only by direct calls from its defining function is read at its calls (expression form `return E`, statement form without return); '
+    'module-level single-binding constants are folded in the module scope when the log path is read (R1/R4b). '
     'R9 every Optional[bool] (tri-state) parameter of an Installer method, e.g. follow_symlinks: for the explicit values True and False of the declared domain no rebinding of the parameter (or of a local holding it) to another value is reachable before a use, '
     'the parameter is read and handed on as an argument, and a sibling method with a tri-state parameter of the same name is called with it. '
     'R5c (interpreter.py) the mode given to build.EmptyDir (install_emptydir, a directory) does not flow through a function that removes S_ISVTX (the files-only sticky-bit stripper). '
     'Does NOT decide: which tag Backend.guess_install_tag assigns to an untagged entry (precedence between nested well-known directories is value-level and not documented), '
     'that the log of an --only-changed run still names the preserved files (they were not created by that run), validation of '
     'install_mode owner/group values in the interpreter, that InstallData otherwise matches the build definition, idempotence beyond the remove-before-create clause, that the per-kind loops hand the item\'s follow_symlinks to the copier where the backend recorded one (R9 only checks forwarding between methods that both declare the parameter), whether the files-only sticky-bit stripper is applied where it should be, ' 
+    'the granularity of the --only-changed timestamp comparison (should_preserve_existing_file comparing int()-truncated instead of raw st_mtime is a value-level change of the compared quantity; seed r7-2), '
+    'the relative order of the per-kind installers other than install_subdirs first (install_symlinks before the file kinds lets later copies write through an installed absolute link, '
+    'but which orders are safe depends on the destinations of a particular project and a loop over a tuple of bound methods is not unrolled; seed r7-3), '
     'symlink-escapes through '
     'pre-existing links, `..` components of install paths, or what custom install scripts write.')
 ASSUMPTIONS = [
@@ -1837,14 +1843,47 @@ def r4b(ctx: RuleCtx) -> None:
     for r in tab.rows:
         writes = [e for e in r.effects if e.startswith('call ARG1.write(')]
         others = [e for e in r.effects if e.startswith('call ') and not e.startswith('call ARG1.write(') and e != 'call ARG1.flush()']
-        if others or not writes or writes[0] != 'call ARG1.write(ARG2)':
+        if others or not writes:
             raise Undecided(f'append_to_log: row not understood: {r!r}')
+        # the record written on this row = the concatenation of everything written: `<transform of the entry> + constant text`
+        pieces: T.List[ast.AST] = []
+        for e in writes:
+            wc = ast.parse(e[len('call '):], mode='eval').body
+            if len(wc.args) != 1 or wc.keywords:      # type: ignore[attr-defined]
+                raise Undecided(f'append_to_log: row not understood: {r!r}')
+            todo = [wc.args[0]]      # type: ignore[attr-defined]
+            while todo:
+                x = todo.pop(0)
+                if isinstance(x, ast.BinOp) and isinstance(x.op, ast.Add):
+                    todo[:0] = [x.left, x.right]
+                elif isinstance(x, ast.JoinedStr) and all(isinstance(v_, ast.Constant) or (isinstance(v_, ast.FormattedValue) and v_.conversion == -1 and v_.format_spec is None)
+                                                          for v_ in x.values):
+                    todo[:0] = [v_.value if isinstance(v_, ast.FormattedValue) else v_ for v_ in x.values]
+                else:
+                    pieces.append(x)
+        if not pieces or isinstance(pieces[0], ast.Constant):
+            raise Undecided(f'append_to_log: row not understood: {r!r}')
+        wch = U.strip_chain(pieces[0])
+        if wch.base != 'ARG2':
+            raise Undecided(f'append_to_log: the first thing written is not derived from the entry: {r!r}')
         extra = []
-        for e in writes[1:]:
-            v = ast.parse(e[len('call '):], mode='eval').body.args[0]   # type: ignore[attr-defined]
+        for v in pieces[1:]:
             if not (isinstance(v, ast.Constant) and isinstance(v.value, str)):
-                raise Undecided(f'append_to_log writes a non-constant after the line: {e}')
+                raise Undecided(f'append_to_log writes a non-constant after the line: {short(v)}')
             extra.append(v.value)
+        if wch.left or wch.right or wch.right_exact:
+            # the writer transforms the entry before recording it: only the terminator it appends itself may be removed
+            tail = ''.join(extra)
+            lost = sorted(x for x in wch.left | wch.right if x not in set(tail)) + [x for x in wch.right_exact if x != tail]
+            if lost or wch.left or not tail:
+                what = 'all Unicode whitespace' if U.WHITESPACE in lost else repr(''.join(lost))
+                ctx.violation(mod, 'append_to_log', pieces[0], f'the log writer records `{short(pieces[0])}` instead of the entry: it removes {what} from the created path, '
+                              'so a path ending (or starting) with such a character is logged under another name and uninstall removes that other path, not what was created', w)
+                return
+            if r.conds:
+                raise Undecided(f'append_to_log: conditions not understood: {r!r}')
+            terms.add(tail)
+            continue
         ends = [(a, v) for a, v in r.conds.items() if a.kind == 'truth' and a.args[0].startswith('ARG2.endswith(')]
         if len(ends) != 1 or len(r.conds) != 1:
             raise Undecided(f'append_to_log: conditions not understood: {r!r}')
@@ -3192,10 +3231,16 @@ def _loop_carried_fields(mod: Module, recs: T.Dict[str, T.List[str]]) -> T.Tuple
             continue
         cfg: T.Optional[CFG] = None
         for lp in loops:
-            ctors = [c for b in lp.body for c in walk_no_nested(b) if isinstance(c, ast.Call) and isinstance(c.func, ast.Name) and c.func.id in recs]
+            # a local helper that survived normal form N15 is a scope of its own: its parameters are not the loop's variables
+            scopes = [b for b in lp.body if isinstance(b, (ast.FunctionDef, ast.AsyncFunctionDef, ast.ClassDef))]
+            own = [b for b in lp.body if b not in scopes]
+            for sc in scopes:
+                if any(isinstance(c, ast.Call) and isinstance(c.func, ast.Name) and c.func.id in recs for c in ast.walk(sc)):
+                    raise Undecided(f'{q}: install records are built inside the local helper `{sc.name}` of a loop body, which could not be read at its calls')
+            ctors = [c for b in own for c in walk_no_nested(b) if isinstance(c, ast.Call) and isinstance(c.func, ast.Name) and c.func.id in recs]
             if not ctors:
                 continue
-            body_stmts = [st for b in lp.body for st in walk_no_nested(b) if isinstance(st, ast.stmt)] + [b for b in lp.body]
+            body_stmts = [st for b in own for st in walk_no_nested(b) if isinstance(st, ast.stmt)] + [b for b in own]
             # definitions inside the body: name -> [(statement, names its new value is computed from)]
             defs: T.Dict[str, T.List[T.Tuple[ast.AST, T.Set[str]]]] = {}
             for st in body_stmts:
